@@ -92,15 +92,21 @@ def encode : Scalar → Text
   | .str s => '"' :: s ++ ['"']
   | .num tok _ => tok
 
+/-- `np.asarray(values).size > 0` on the domain: only the empty list has size 0 -/
+def sizePos : AVal → Bool
+  | .list [] => false
+  | _ => true
+
 mutual
-/-- `build_attributes(attr, values)`; nested dicts keep their insertion order -/
+/-- `build_attributes(attr, values)`; nested dicts keep their insertion order; a non-dict value of size 0
+    (the empty list) yields nothing -/
 def buildAttr : Text → AVal → Item
   | k, .sc x => .attr (typeConvert x) k [x]
   | k, .list xs => .attr (listType xs) k xs
   | k, .dict kvs => .cont k (buildAttrs kvs)
 def buildAttrs : List (Text × AVal) → List Item
   | [] => []
-  | (k, v) :: rest => buildAttr k v :: buildAttrs rest
+  | (k, v) :: rest => if sizePos v then buildAttr k v :: buildAttrs rest else buildAttrs rest
 end
 
 /-- insertion into a list sorted by key (Python `sorted` on `str` = code point order) -/
@@ -113,14 +119,9 @@ def sortKeys : Dict → Dict
   | [] => []
   | kv :: rest => insKey kv (sortKeys rest)
 
-/-- `np.asarray(values).size > 0` on the domain: only the empty list has size 0 -/
-def sizePos : AVal → Bool
-  | .list [] => false
-  | _ => true
-
 mutual
 /-- `das(var)`: Structure/Sequence print attributes then children; Base/Grid print the attributes of
-    positive size only and never their members -/
+    positive size only (redundant with `build_attributes` now) and never their members -/
 def dasVar : Var → Item
   | .mk .struct n a cs => .cont n (buildAttrs (sortKeys a) ++ dasVars cs)
   | .mk .seq n a cs => .cont n (buildAttrs (sortKeys a) ++ dasVars cs)
@@ -171,25 +172,6 @@ end
 /-- the whole DAS response text -/
 def dasText (ds : Dataset) : Text :=
   "Attributes {\n".toList ++ renderItems 1 (dasItems ds) ++ ['}', '\n']
-
-mutual
-/-- `get_type([])` raises IndexError outside Base/Grid (where size-0 values are skipped) -/
-def attrsPrintable : List (Text × AVal) → Bool
-  | [] => true
-  | (_, .list []) :: _ => false
-  | (_, .dict kvs) :: rest => attrsPrintable kvs && attrsPrintable rest
-  | _ :: rest => attrsPrintable rest
-end
-
-mutual
-def varPrintable : Var → Bool
-  | .mk .struct _ a cs => attrsPrintable a && varsPrintable cs
-  | .mk .seq _ a cs => attrsPrintable a && varsPrintable cs
-  | .mk _ _ a _ => attrsPrintable (a.filter fun kv => sizePos kv.2)
-def varsPrintable : List Var → Bool
-  | [] => true
-  | v :: rest => varPrintable v && varsPrintable rest
-end
 
 /-! ### regular-expression primitives (`SimpleParser.peek/consume`, flags IGNORECASE|VERBOSE|DOTALL) -/
 
